@@ -291,7 +291,15 @@ func (fx *Fx) loopEntryAfterPhis(st *State, li *LoopInfo) *State {
 	env2 := &Env{fx: fx, st: st, old: fx.Entry, vars: vars}
 	for _, inv := range ann.Inv {
 		n0 := len(fx.Assume)
-		fx.assume(st, fx.P.elab(fx, inv.X, env2).Scalar())
+		it := fx.P.elab(fx, inv.X, env2).Scalar()
+		for _, c := range conjuncts(it) {
+			// object disequalities over this loop's own symbols hold wherever those symbols occur
+			if c.Op == "not" && c.Args[0].Op == "=" && c.Args[0].Args[0].S == IntS {
+				noteDistinct(c.Args[0].Args[0], c.Args[0].Args[1])
+			}
+		}
+		fx.assume(st, it)
+		_ = it
 		if len(fx.Assume) > n0 {
 			fx.KeyFacts[fx.Assume[len(fx.Assume)-1]] = true
 		}
@@ -593,8 +601,23 @@ func (fx *Fx) loopBackEdge(st *State, li *LoopInfo, pred *ssa.BasicBlock) {
 			vars[n+"@pre"] = v
 		}
 	}
+	if ctx != nil {
+		for n, v := range ctx.head {
+			vars[n+"@head"] = v
+		}
+	}
 	env := &Env{fx: fx, st: st, old: fx.Entry, vars: vars}
 	pos := li.Header.Instrs[0].Pos()
+	if len(ann.AssertsNext) > 0 {
+		for _, a := range ann.AssertsNext {
+			g := fx.P.elab(fx, a.X, env).Scalar()
+			fx.oblige(st, "inv-step", fmt.Sprintf("loop%d:assert:%s", li.Ordinal, a.Label), g, pos)
+			fx.assume(st, g)
+			fx.KeyFacts[fx.Assume[len(fx.Assume)-1]] = true
+		}
+		fx.stepsActive = true
+		defer func() { fx.stepsActive = false }()
+	}
 	for _, inv := range ann.Inv {
 		g := fx.P.elab(fx, inv.X, env).Scalar()
 		debugGoalVsUnfold(fx, g)
